@@ -28,7 +28,7 @@ TASKS = [['vlab.tasks_core', 'VA'], ['vlab.tasks_core', 'VB'], ['vlab.tasks_core
          ['vlab.tasks_core', 'V\u00c9'], ['vlab.tasks_core', 'V__W_'], ['vlab.tasks_core', 'kick_']]
 KEYS = ['a', 'b', 'k', '', 'é', 'name', 'is_task', 'x.y', '0', 'p']
 UNSUPPORTED = ['set', 'bytes', 'object', 'complex', 'intkey', 'nonekey', 'tuplekey', 'frozenset', 'bytearray',
-               'function', 'type', 'mixedkey-int', 'mixedkey-none', 'mixedkey-tuple', 'mixedkey-last']
+               'function', 'type', 'taskclass', 'taskclass-required', 'mixedkey-int', 'mixedkey-none', 'mixedkey-tuple', 'mixedkey-last']
 
 
 def gen_scalar(rng):
@@ -136,6 +136,9 @@ def make_unsupported(kind):
         'intkey': lambda: {1: 'a'}, 'nonekey': lambda: {None: 1}, 'tuplekey': lambda: {('a',): 1},
         'frozenset': lambda: frozenset([1]), 'bytearray': lambda: bytearray(b'a'),
         'function': lambda: len, 'type': lambda: int,
+        # a task TYPE (the class, not an instance): all fields defaulted / with a required field
+        'taskclass': lambda: importlib.import_module('vlab.tasks_core').VA,
+        'taskclass-required': lambda: importlib.import_module('vlab.tasks_core').NA,
         # one bad key among string keys (the keys of such a dict cannot even be ordered against each other)
         'mixedkey-int': lambda: {'lr': 0.1, 0: 'layer'}, 'mixedkey-none': lambda: {None: 1, 'a': 2},
         'mixedkey-tuple': lambda: {'b': 2, ('a',): 1, 'c': 3}, 'mixedkey-last': lambda: {'x': 1, 'y': 2, 3.5: 'z'},
